@@ -44,6 +44,14 @@ claim("C01",
       "The global invariant over arbitrary edit histories is not decided; add()/insert() accepting a second parent is a recorded known finding.",
       COMMON_NOTE, "ast ownership (who-may-write) + all-paths must-pass-through + override discipline", "DESIGN.md section 3 C01")
 
+claim("C15",
+      "Static conformance analysis (partial, exact) of the operator schedule: loop shapes of _mainOperate/_cycleLoop/_timeNodeLoop (BOL once, BOC before nodes, one node "
+      "per burn step plus exactly one final node, EOC, EOL on every exit incl. halt), the hook call in _interactAll executing exactly once per interface on every path "
+      "(short-circuit aware), state strings and hook arguments of the six interactAllX, interface selection and EOL order, tight-coupling loop and the per-node DB write, "
+      "node numbering helpers sharing getNodesPerCycle and being inverse affine forms (polynomial normal form). Equality with a reference schedule for every configuration "
+      "is not decided.",
+      COMMON_NOTE, "all-paths event counting (short-circuit aware) + path conditions + sibling agreement + polynomial normal forms", "DESIGN.md section 3 C15")
+
 NA_REASON = {}
 
 
